@@ -97,11 +97,41 @@ pub fn render(seq: &[Item]) -> String {
 }
 /// `hostile`: indices of markers (the disabled ones) that are followed, on their line, by text the lexer rejects
 pub fn render_with(seq: &[Item], hostile: &[usize]) -> String {
+    render_styled(seq, hostile, Style::Plain)
+}
+#[derive(Clone, Copy, PartialEq, Eq)]
+pub enum Style {
+    Plain,
+    /// every marker line also carries directive words inside a line comment, a block comment and a string
+    Decoy,
+    /// `#else` and `#endif` have a comment glued to them (`#else// c`, `#endif/* c */`)
+    Glued,
+}
+pub fn render_styled(seq: &[Item], hostile: &[usize], style: Style) -> String {
     let mut s = String::new();
     for (i, it) in seq.iter().enumerate() {
         if hostile.contains(&i) {
             s.push_str(&format!("mk{} !bogus \"open\n", i));
             continue;
+        }
+        match (*it, style) {
+            (Item::Marker, Style::Decoy) => {
+                if i % 2 == 0 {
+                    s.push_str(&format!("mk{} // #endif #else #ifdef AAA\n", i));
+                } else {
+                    s.push_str(&format!("mk{} /* #else */ \"#endif\" /* #ifndef BBB */\n", i));
+                }
+                continue;
+            }
+            (Item::Else, Style::Glued) => {
+                s.push_str("#else// c\n");
+                continue;
+            }
+            (Item::Endif, Style::Glued) => {
+                s.push_str("#endif/* c */\n");
+                continue;
+            }
+            _ => {}
         }
         match *it {
             Item::Define(m) => s.push_str(&format!("#define {}\n", MACROS[m as usize])),
@@ -143,7 +173,19 @@ pub fn check_seq(seq: &[Item], ctx: &mut Ctx) {
     if !ev.well_nested {
         return; // stray #else/#endif: outside the statement
     }
-    check_seq_rendered(seq, &ev, &[], ctx);
+    check_seq_rendered(seq, &ev, &[], Style::Plain, ctx);
+    // renderings three and four (fully named, closed or unterminated sequences with a conditional): directive
+    // words inside comments and strings on every marker line; comments glued to #else / #endif
+    if !ev.nameless_any && seq.iter().any(|i| matches!(i, Item::Ifdef(_) | Item::Ifndef(_))) {
+        if seq.contains(&Item::Marker) {
+            ctx.feature("directive_words_in_comments_and_strings");
+            check_seq_rendered(seq, &ev, &[], Style::Decoy, ctx);
+        }
+        if seq.contains(&Item::Else) || seq.contains(&Item::Endif) {
+            ctx.feature("comment_glued_to_directive");
+            check_seq_rendered(seq, &ev, &[], Style::Glued, ctx);
+        }
+    }
     // second rendering: the disabled markers carry text the lexer rejects (an unknown operator, an unterminated
     // string); nothing about it may surface, and the preprocessor's own errors must still be the ones reported
     // (only markers in front of the first nameless directive: the reference evaluation is exact up to there)
@@ -151,12 +193,12 @@ pub fn check_seq(seq: &[Item], ctx: &mut Ctx) {
     let disabled: Vec<usize> = seq.iter().enumerate().filter(|(i, it)| *i < first_nameless && **it == Item::Marker && !ev.selected.contains(i)).map(|(i, _)| i).collect();
     if !disabled.is_empty() {
         ctx.feature("lexically_bad_disabled_text");
-        check_seq_rendered(seq, &ev, &disabled, ctx);
+        check_seq_rendered(seq, &ev, &disabled, Style::Plain, ctx);
     }
 }
 
-fn check_seq_rendered(seq: &[Item], ev: &RefEval, hostile: &[usize], ctx: &mut Ctx) {
-    let text = render_with(seq, hostile);
+fn check_seq_rendered(seq: &[Item], ev: &RefEval, hostile: &[usize], style: Style, ctx: &mut Ctx) {
+    let text = render_styled(seq, hostile, style);
     ctx.eval();
     ctx.current_text(&text);
     syntax::verif::arm(64 * (text.len() as u64 + 8));
@@ -470,10 +512,10 @@ impl Check for C15 {
         }
     }
     fn rule(&self) -> String {
-        "EXHAUSTIVE: every sequence of length <= 6 (thorough: <= 8) over {#define A, #define B, #ifdef A, #ifdef B, #ifndef A, #ifndef B, #else, #endif, marker identifier, #ifdef without name, #define without name}, one item per line, pruned at the first stray #else/#endif (outside the statement). Well-nested, fully named, closed sequences: the Id tokens of syntax::parse must equal the markers selected by the reference evaluator refpp and no Error token may appear. Closed-but-for-EOF sequences: some syntax error must mention the missing #endif. Sequences with exactly one nameless directive in enabled text: some error must mention the macro name. Every sequence with a disabled marker (in front of the first nameless directive) is evaluated a second time with `!bogus \"open` - an unknown operator and an unterminated string - appended to each disabled marker's line: the same three oracles apply, so lexical complaints about disabled text may neither surface nor displace the preprocessor's own report. SAMPLED (ide level): random nestings up to depth 4 with `class V_k {..}` in enabled and `class Hidden_k : Undefined_k; \"unterminated [{ (` in disabled regions: the outline must be exactly the V_k and there must be no diagnostics. non-trivial = sequence contains a conditional / workspace contains disabled declarations; distinct by text digest".into()
+        "EXHAUSTIVE: every sequence of length <= 6 (thorough: <= 8) over {#define A, #define B, #ifdef A, #ifdef B, #ifndef A, #ifndef B, #else, #endif, marker identifier, #ifdef without name, #define without name}, one item per line, pruned at the first stray #else/#endif (outside the statement). Well-nested, fully named, closed sequences: the Id tokens of syntax::parse must equal the markers selected by the reference evaluator refpp and no Error token may appear. Closed-but-for-EOF sequences: some syntax error must mention the missing #endif. Sequences with exactly one nameless directive in enabled text: some error must mention the macro name. Every sequence with a disabled marker (in front of the first nameless directive) is evaluated a second time with `!bogus \"open` - an unknown operator and an unterminated string - appended to each disabled marker's line: the same three oracles apply, so lexical complaints about disabled text may neither surface nor displace the preprocessor's own report. Fully named sequences with a conditional are evaluated twice more: with directive words inside a line comment, a block comment and a string literal on every marker line (they are text, not directives - in enabled and in disabled regions), and with a comment glued to every #else / #endif (`#else// c`, `#endif/* c */`). SAMPLED (ide level): random nestings up to depth 4 with `class V_k {..}` in enabled and `class Hidden_k : Undefined_k; \"unterminated [{ (` in disabled regions: the outline must be exactly the V_k and there must be no diagnostics. non-trivial = sequence contains a conditional / workspace contains disabled declarations; distinct by text digest".into()
     }
     fn floors(&self, tier: Tier) -> Vec<(&'static str, u64)> {
-        vec![("exhaustive_units", 122), ("well_nested", tier.pick(10_000, 500_000)), ("unterminated", tier.pick(100_000, 10_000_000)), ("nameless", tier.pick(100_000, 10_000_000)), ("has_disabled_marker", tier.pick(1500, 100_000)), ("lexically_bad_disabled_text", tier.pick(10_000, 500_000)), ("ide_with_disabled_decl", 1000)]
+        vec![("exhaustive_units", 122), ("well_nested", tier.pick(10_000, 500_000)), ("unterminated", tier.pick(100_000, 10_000_000)), ("nameless", tier.pick(100_000, 10_000_000)), ("has_disabled_marker", tier.pick(1500, 100_000)), ("lexically_bad_disabled_text", tier.pick(10_000, 500_000)), ("directive_words_in_comments_and_strings", tier.pick(10_000, 500_000)), ("comment_glued_to_directive", tier.pick(10_000, 500_000)), ("ide_with_disabled_decl", 1000)]
     }
     fn exhaustive(&self, tier: Tier) -> Option<String> {
         Some(format!("all directive/marker sequences of length <= {} over the 11-item alphabet (pruned only where a stray #else/#endif already makes every extension ill-nested)", tier.pick(6, 8)))
